@@ -103,6 +103,27 @@ OuterLoop:
 					default:
 						arg = int64(n)
 					}
+					// Go's fmt and C's printf disagree on a few flag combinations:
+					// render those the C way and pass the result as a string.
+					if spec, ok := parseIntSpec(format[start:i]); ok {
+						useC := false
+						switch format[i] {
+						case 'x', 'X', 'o':
+							// '#': Go writes 0x0 for 0, pads %#06x ignoring the
+							// prefix and prints nothing for %#.0o of 0.
+							useC = spec.sharp
+						case 'd', 'i':
+							// Go drops an explicit sign when precision and value are 0.
+							useC = spec.prec == 0 && n == 0 && (spec.plus || spec.space)
+						}
+						if useC {
+							arg = spec.format(format[i], n)
+							for k := start; k < i; k++ {
+								outFormat[k] = ' ' // flag without effect on %s
+							}
+							outFormat[i] = 's'
+						}
+					}
 					break ArgLoop
 				case 'a', 'A':
 					// Hexadecimal float verbs
@@ -219,6 +240,114 @@ OuterLoop:
 
 	// Release temporary memory
 	return fmt.Sprintf(string(outFormat), args...), nil
+}
+
+// intSpec is the part of an integer directive between '%' and the verb.
+type intSpec struct {
+	minus, plus, space, sharp, zero bool
+	width, prec                     int // prec is -1 when absent
+}
+
+// parseIntSpec parses flags, width and precision in the order C requires; ok
+// is false if anything else is found.
+func parseIntSpec(s string) (spec intSpec, ok bool) {
+	k := 0
+flags:
+	for ; k < len(s); k++ {
+		switch s[k] {
+		case '-':
+			spec.minus = true
+		case '+':
+			spec.plus = true
+		case ' ':
+			spec.space = true
+		case '#':
+			spec.sharp = true
+		case '0':
+			spec.zero = true
+		default:
+			break flags
+		}
+	}
+	number := func() (n int) {
+		for ; k < len(s) && s[k] >= '0' && s[k] <= '9'; k++ {
+			n = n*10 + int(s[k]-'0')
+		}
+		return
+	}
+	spec.width = number()
+	spec.prec = -1
+	if k < len(s) && s[k] == '.' {
+		k++
+		spec.prec = number()
+	}
+	return spec, k == len(s)
+}
+
+// format renders n as C's printf does for the verbs d i u x X o.
+func (spec intSpec) format(verb byte, n int64) string {
+	signed := verb == 'd' || verb == 'i'
+	negative := signed && n < 0
+	u := uint64(n)
+	if negative {
+		u = -u
+	}
+	base := 10
+	switch verb {
+	case 'x', 'X':
+		base = 16
+	case 'o':
+		base = 8
+	}
+	// A zero value with a precision of zero is no characters
+	digits := ""
+	if spec.prec != 0 || u != 0 {
+		digits = strconv.FormatUint(u, base)
+		if verb == 'X' {
+			digits = strings.ToUpper(digits)
+		}
+	}
+	if p := spec.prec; p < 0 && len(digits) < 1 || p > len(digits) {
+		if p < 0 {
+			p = 1
+		}
+		digits = strings.Repeat("0", p-len(digits)) + digits
+	}
+	// '#' for o increases the precision so that the first digit is 0
+	if spec.sharp && verb == 'o' && (digits == "" || digits[0] != '0') {
+		digits = "0" + digits
+	}
+	prefix := ""
+	switch {
+	case negative:
+		prefix = "-"
+	case signed && spec.plus:
+		prefix = "+"
+	case signed && spec.space:
+		prefix = " "
+	}
+	// '#' for x and X prefixes a nonzero result
+	if spec.sharp && u != 0 {
+		switch verb {
+		case 'x':
+			prefix += "0x"
+		case 'X':
+			prefix += "0X"
+		}
+	}
+	pad := spec.width - len(prefix) - len(digits)
+	if pad <= 0 {
+		return prefix + digits
+	}
+	switch {
+	case spec.zero && !spec.minus && spec.prec < 0:
+		// zeros follow the sign and base prefix
+		return prefix + strings.Repeat("0", pad) + digits
+	case spec.minus:
+		return prefix + digits + strings.Repeat(" ", pad)
+	default:
+		return strings.Repeat(" ", pad) + prefix + digits
+	}
 }
 
 // quoteString returns a Lua string literal denoting s.  It escapes like Go's
